@@ -172,7 +172,8 @@ def gen_call(rng, enabled_calls, inp, opts, param, pool, allow_invalid, optgen=N
     if rng.random() < 0.08:
         call['suffix'] = '.PDB'
     if kind == 'single_path':
-        call['path_kind'] = rng.choice(['abs', 'rel', 'Path', 'zip'])
+        call['path_kind'] = rng.choice(['abs', 'rel', 'Path', 'zip', 'abs', 'rel',
+                                        'dotdot', 'symlink', 'symdir'])
         if call['path_kind'] == 'rel':
             call['dotslash'] = rng.random() < 0.3
         if call['path_kind'] == 'zip':
